@@ -65,10 +65,12 @@ def body(run):
                            creation_options=rng.choice([None, dict(tiled=True, blockxsize=16, blockysize=16), dict(compress='deflate')]))
         if out_profile['creation_options'] is None:
             del out_profile['creation_options']
-        desc = dict(geom=g.describe(), bands=nb, wavelengths=with_wl, ref_band_order=order, requested_proc_crs=req, model=model, kernel_shape=list(kshape),
+        # sometimes only some of the source bands are selected: outputs have one band per MATCHED source band
+        sel = sorted(rng.sample(range(1, nb + 1), rng.randint(1, nb - 1))) if (with_wl and nb >= 2 and rng.random() < 0.4) else None
+        desc = dict(geom=g.describe(), bands=nb, src_bands=sel, wavelengths=with_wl, ref_band_order=order, requested_proc_crs=req, model=model, kernel_shape=list(kshape),
                     model_config={a: b for a, b in mc.items()}, threads=threads, max_block_mem=mbm, out_profile=out_profile)
         res = fz.fuse(sfn, rfn, run.work / 'o_out.tif', model=model, kernel_shape=kshape, proc_crs=req, max_block_mem=mbm, threads=threads,
-                      model_config=mc, out_profile=out_profile)
+                      model_config=mc, out_profile=out_profile, src_bands=sel)
         key = f'{req}->{res["proc_crs"]}/bands={nb}/wl={with_wl}'
         dist[key] = dist.get(key, 0) + 1
         run.count_case((k,), nb >= 2 or req == 'auto', desc if len(run.cov['samples']) < 3 else None)
@@ -86,11 +88,11 @@ def body(run):
         if C['count'] != len(res['src_bands']) or P['count'] != 3 * len(res['src_bands']):
             problems['band counts'] = [C['count'], P['count'], len(res['src_bands'])]
         if with_wl:
-            expect_ref = tuple(order.index(i) + 1 for i in range(nb))
-            if tuple(res['ref_bands']) != expect_ref or tuple(res['src_bands']) != tuple(range(1, nb + 1)):
+            expect_ref = tuple(order.index(i - 1) + 1 for i in (sel or range(1, nb + 1)))
+            if tuple(res['ref_bands']) != expect_ref or tuple(res['src_bands']) != tuple(sel or range(1, nb + 1)):
                 problems['fusion matched the wrong bands'] = dict(got=[res['src_bands'], res['ref_bands']], expected_ref=expect_ref)
         # band order by content: corrected band i was fused with reference band ref_bands[i] (factor GAINS[...])
-        if model == 'gain' and nb >= 2 and len(set(GAINS[b - 1] for b in res['ref_bands'])) == nb:
+        if model == 'gain' and C['count'] >= 2 and C['count'] == len(res['ref_bands']) and len(set(GAINS[b - 1] for b in res['ref_bands'])) == C['count']:
             means = [float(np.nanmean(C['array'][i])) for i in range(C['count'])]
             base = means[0] / GAINS[res['ref_bands'][0] - 1]
             for i, m in enumerate(means):
@@ -142,12 +144,29 @@ def body(run):
             else:
                 synth.write_tif(r2, ref, g.ref_transform, mask=pair['rmask'], band_tags=bt_r, descriptions=[f'R{b + 1}' for b in range(nb)])
             res2 = fz.fuse(s2, r2, run.work / 'su_out.tif', model=model, kernel_shape=kshape, proc_crs=req, max_block_mem=mbm, threads=threads,
-                           model_config=mc, out_profile=out_profile)
+                           model_config=mc, out_profile=out_profile, src_bands=sel)
             dist['south-up/' + which] = dist.get('south-up/' + which, 0) + 1
             run.count_case(('su', k), True, None)
-            d = fz.first_diff(res2['corr']['array'], C['array'])
-            if d or tuple(res2['corr']['transform'])[:6] != tuple(C['transform'])[:6] or not fz.same_arrays(res2['param']['array'], P['array']):
-                run.add_violation('storing an input south-up changes the result', dict(desc, south_up=which), observed=dict(first_diff=d),
+            # dyadic geometries: bit-identical.  Otherwise the north-up view GDAL's WarpedVRT builds of a flipped image has bounds that differ
+            # from the stored north-up ones in the last bits (res * height is not exact), which shows as float32 ulp noise in the values:
+            # masks identical, values to 2e-6 relative
+            dyadic = all(float(v * 8).is_integer() for v in (g.ref_res, g.ratio, g.x0, g.y0, *g.off_rc)) and g.ratio >= 1
+
+            def close(a, b):
+                a, b = np.asarray(a, 'float64'), np.asarray(b, 'float64')
+                if a.shape != b.shape or not np.array_equal(np.isnan(a), np.isnan(b)):
+                    return False
+                ok = ~np.isnan(a)
+                with np.errstate(invalid='ignore'):
+                    return bool(np.all((a[ok] == b[ok]) | (np.abs(a[ok] - b[ok]) <= 2e-6 * (np.abs(b[ok]) + 1))))
+            same = (fz.same_arrays(res2['corr']['array'], C['array']) and fz.same_arrays(res2['param']['array'], P['array'])) if dyadic else \
+                (close(res2['corr']['array'], C['array']) and close(res2['param']['array'], P['array']))
+            d = None if same else (fz.first_diff(res2['corr']['array'], C['array']) or fz.first_diff(res2['param']['array'], P['array']))
+            t2, t1 = tuple(res2['corr']['transform'])[:6], tuple(C['transform'])[:6]
+            # (the north-up transform of a flipped image is recomputed from its bounds: equal to a millionth of a pixel, bit-equal when dyadic)
+            same_t = t2 == t1 if dyadic else all(abs(a - b) <= 1e-6 * abs(g.src_res) for a, b in zip(t2, t1))
+            if not same or not same_t:
+                run.add_violation('storing an input south-up changes the result', dict(desc, south_up=which), observed=dict(first_diff=d, transforms=[list(t2), list(t1)]),
                                   signature=dict(kind='south-up', which=which))
     # D7: colour-interpretation matching (BGR source, RGB reference, no wavelength tags) is not recorded in the corrected image
     g, pair, mbm, nblk = fz.workable_pair(run.work, rng, lambda r: synth.aligned_geom(r, 24), (3, 3), 1, tag='d7', bands=1)
@@ -176,7 +195,7 @@ def body(run):
     run.cov['rule'] = ('real fusions (1..4 bands, reference bands permuted with wavelength tags in 70 %, requested grid auto/src/ref, 3 models, output profiles): '
                        'geometry of both outputs, band count and order by content, every effective setting in the FUSE_* tags, wavelength tags copied, '
                        'compare(corrected, reference) band pairs, the Gallina band matcher on the metadata actually written; every third pair re-run with the '
-                       'source / reference / both stored south-up (bit-identical); non-trivial = >= 2 bands or auto grid')
+                       'source / reference / both stored south-up (bit-identical on dyadic geometries, masks identical and values to 2e-6 otherwise); non-trivial = >= 2 bands or auto grid')
     run.extra['input_distribution'] = dict(runs=dist, model_nontrivial=nt)
     run.assumptions += ['H_vrt: a WarpedVRT of a flipped same-grid image is that image north-up (exercised exactly); geo-placement relies on GDAL']
     run.trusted += ['GDAL / rasterio geo-referencing, tags and WarpedVRT; translate/skeleton.py (tags plumbing)']
